@@ -34,6 +34,10 @@ func runC15(c *eng.Ctx, tier string) {
 	// a watcher wraps the memoised handle of its name: what Updater.Get rebuilds
 	// from is what that handle reads
 	handleBoundToName(c, "R-C15-3")
+	// R-C15-8: an updater created while a poll is in flight still sees installs:
+	// the entry its watcher's handle reads is never removed once the handle
+	// exists (the removal re-checks the handle registry: C19's rule)
+	includeOnly(c, "R-C15-8", func(sc *eng.Ctx) { runC19(sc, "quick") }, "R-C19-1")
 	// R-C15-1 creation sites
 	n := 0
 	for _, f := range p.PkgFuncs(setecPkg) {
@@ -66,29 +70,38 @@ func runC15(c *eng.Ctx, tier string) {
 	if n == 0 {
 		c.Undecided("R-C15-1", nil, 0, "watcher creation sites", "none found")
 	}
-	notify := anchor(p, setecPkg, "watcher.notify")
-	if notify == nil {
-		c.Undecided("R-C15-1", nil, 0, "setec.watcher.notify", "anchor does not resolve")
-	} else {
-		sends := 0
-		eng.Instrs(notify, func(in ssa.Instruction) {
+	notify := anchor(p, setecPkg, "watcher.notify") // may be nil: the send written in place
+	isReadyChan := func(ch ssa.Value) (ssa.Value, bool) {
+		fr, base, isF := eng.LoadedField(ch)
+		if isF && fr.Is(setecPkg, "watcher", watcherChanField(p)) {
+			return base, true
+		}
+		return nil, false
+	}
+	sends := 0
+	for _, f := range p.PkgFuncs(setecPkg) {
+		eng.Instrs(f, func(in ssa.Instruction) {
 			switch x := in.(type) {
 			case *ssa.Send:
-				sends++
-				c.Bad("R-C15-1", notify, in.Pos(), eng.InstrStr(in), "notify never blocks: it sends only inside a select with default", "plain channel send")
+				if _, isR := isReadyChan(x.Chan); isR {
+					sends++
+					c.Bad("R-C15-1", f, in.Pos(), eng.InstrStr(in), "a notification never blocks: it is sent only inside a select with default", "plain channel send")
+				}
 			case *ssa.Select:
 				for _, st := range x.States {
-					if st.Dir == types.SendOnly {
+					if st.Dir != types.SendOnly {
+						continue
+					}
+					if _, isR := isReadyChan(st.Chan); isR {
 						sends++
-						fr, _, isF := eng.LoadedField(st.Chan)
-						c.Check(!x.Blocking && isF && fr.Is(setecPkg, "watcher", watcherChanField(p)), "R-C15-1", notify, in.Pos(), "send in notify", "a non-blocking select (with default) sending on the watcher's own ready channel", "blocking="+boolStr(x.Blocking))
+						c.Check(!x.Blocking, "R-C15-1", f, in.Pos(), "send on a watcher's ready channel in "+eng.FName(f), "a non-blocking select (with default) sending on the watcher's own ready channel", "blocking="+boolStr(x.Blocking))
 					}
 				}
 			}
 		})
-		if sends == 0 {
-			c.Bad("R-C15-1", notify, notify.Pos(), "notify", "signals the ready channel", "no send found")
-		}
+	}
+	if sends == 0 {
+		c.Bad("R-C15-1", nil, 0, "notification of watchers", "signals the ready channel", "no send found")
 	}
 
 	// R-C15-2 install then notify
@@ -114,20 +127,36 @@ func runC15(c *eng.Ctx, tier string) {
 				installs = append(installs, a.In.(*ssa.Store))
 			}
 		}
-		var notifies []*ssa.Call
+		type notification struct {
+			in      ssa.Instruction // the call of notify, or the non-blocking send written in place
+			watcher ssa.Value
+		}
+		var notifies []notification
 		// (the loop over the name's watchers may live in a helper applyUpdates calls from one place)
-		notifySite := map[*ssa.Call]ssa.Instruction{} // where it happens in apply itself
+		notifySite := map[ssa.Instruction]ssa.Instruction{} // where it happens in apply itself
 		eng.InstrsDeep(apply, func(g *ssa.Function, in ssa.Instruction) {
-			call, ok := in.(*ssa.Call)
-			if !ok || notify == nil || eng.Callee(&call.Call) != notify {
+			var nt *notification
+			if call, ok := in.(*ssa.Call); ok && notify != nil && eng.Callee(&call.Call) == notify && len(call.Call.Args) > 0 {
+				nt = &notification{in, call.Call.Args[0]}
+			}
+			if sel, ok := in.(*ssa.Select); ok && g != notify {
+				for _, st := range sel.States {
+					if st.Dir == types.SendOnly {
+						if w, isR := isReadyChan(st.Chan); isR {
+							nt = &notification{in, w}
+						}
+					}
+				}
+			}
+			if nt == nil {
 				return
 			}
 			if g == apply {
-				notifies = append(notifies, call)
-				notifySite[call] = call
+				notifies = append(notifies, *nt)
+				notifySite[in] = in
 			} else if site := eng.UniqueCallSite(g); site != nil && site.Parent() == apply && g.Parent() == nil {
-				notifies = append(notifies, call)
-				notifySite[call] = site
+				notifies = append(notifies, *nt)
+				notifySite[in] = site
 			}
 		})
 		if outer == nil || len(installs) == 0 {
@@ -136,11 +165,12 @@ func runC15(c *eng.Ctx, tier string) {
 			if len(notifies) == 0 {
 				c.Bad("R-C15-2", apply, apply.Pos(), "notification after install", "watchers of an updated secret are notified", "applyUpdates never calls notify")
 			}
-			for _, nc := range notifies {
+			for _, nt := range notifies {
+				nc := nt.in
 				// the watcher notified belongs to the list of the same name
 				okName := false
 				for _, rl := range eng.RangeLoops(nc.Parent()) {
-					if rl.ElemOf(nc.Call.Args[0]) {
+					if rl.ElemOf(nt.watcher) {
 						if lk, isLk := eng.Origin(rl.Slice).(*ssa.Lookup); isLk {
 							if nm, isAct := activeMapOf(lk.X); isAct && nm == "w" && eng.OriginX(lk.Index) == outer.Key {
 								okName = true
@@ -155,14 +185,14 @@ func runC15(c *eng.Ctx, tier string) {
 					}
 				}
 				hs := l.HeldBefore(nc)
-				c.Check(okName && dom && l.HoldsReal(hs, keyStore), "R-C15-2", apply, nc.Pos(), eng.CallStr(&nc.Call), "notify is called for the watchers of the very name just installed, after the install, with the lock still held", "same-name="+boolStr(okName)+" install-dominates="+boolStr(dom)+" held="+l.StateStr(hs))
+				c.Check(okName && dom && l.HoldsReal(hs, keyStore), "R-C15-2", apply, nc.Pos(), eng.InstrStr(nc), "notify is called for the watchers of the very name just installed, after the install, with the lock still held", "same-name="+boolStr(okName)+" install-dominates="+boolStr(dom)+" held="+l.StateStr(hs))
 			}
 			// every installing iteration reaches the notification loop
 			for _, st := range installs {
 				var wl *eng.RangeLoop
 				fns := map[*ssa.Function]bool{apply: true}
-				for _, nc := range notifies {
-					fns[nc.Parent()] = true
+				for _, nt := range notifies {
+					fns[nt.in.Parent()] = true
 				}
 				for g := range fns {
 					for _, rl := range eng.RangeLoops(g) {
@@ -327,13 +357,27 @@ func runC15(c *eng.Ctx, tier string) {
 			}
 		})
 		okk := false
-		eng.Instrs(nu, func(in ssa.Instruction) {
+		// (the construction may be finished by a helper NewUpdater hands the watcher to)
+		fromLW := func(v ssa.Value) bool {
+			if lwCall == nil {
+				return false
+			}
+			if v == ssa.Value(lwCall) {
+				return true
+			}
+			if prm, isP := v.(*ssa.Parameter); isP && prm.Parent() != nu {
+				hc, _ := eng.TupleCall(eng.OriginX(prm))
+				return hc == lwCall
+			}
+			return false
+		}
+		eng.InstrsDeep(nu, func(_ *ssa.Function, in ssa.Instruction) {
 			call, ok := in.(*ssa.Call)
 			if !ok {
 				return
 			}
 			if prm, isP := eng.Origin(call.Call.Value).(*ssa.Parameter); isP && isBuilderType(prm.Type()) && len(call.Call.Args) == 1 {
-				if p.DependsOn(call.Call.Args[0], func(v ssa.Value) bool { return lwCall != nil && v == ssa.Value(lwCall) }) {
+				if p.DependsOn(call.Call.Args[0], fromLW) {
 					okk = true
 				}
 			}
@@ -479,21 +523,57 @@ func c15Get(c *eng.Ctx) {
 	}
 	// Close calls
 	nClose := 0
-	eng.Instrs(get, func(in ssa.Instruction) {
-		call, ok := in.(ssa.CallInstruction)
-		if !ok || !call.Common().IsInvoke() || call.Common().Method.Name() != "Close" {
-			return
-		}
-		_, deferred := in.(*ssa.Defer)
-		nClose++
-		// operand: type assertion of a load of u.value that precedes every store
-		src := call.Common().Value
+	var closeSite ssa.Instruction
+	// closedOperand: the value whose Close method the invoke calls (through
+	// the `if c, ok := any(v).(io.Closer)` assertion)
+	closedOperand := func(cc *ssa.CallCommon) ssa.Value {
+		src := cc.Value
 		if ex, isEx := src.(*ssa.Extract); isEx {
 			if ta, isTA := ex.Tuple.(*ssa.TypeAssert); isTA {
 				src = ta.X
 			}
 		}
-		src = eng.OriginConv(src)
+		return eng.OriginConv(src)
+	}
+	eng.Instrs(get, func(in ssa.Instruction) {
+		call, ok := in.(ssa.CallInstruction)
+		if !ok {
+			return
+		}
+		var src ssa.Value
+		if call.Common().IsInvoke() && call.Common().Method.Name() == "Close" {
+			src = closedOperand(call.Common())
+		} else if h := eng.Callee(call.Common()); eng.IsHelper(get, h) && len(h.Params) == len(call.Common().Args) {
+			// a "close it if it is a Closer" helper: its only effect is one
+			// Close invoke on its own parameter
+			var inner ssa.CallInstruction
+			nInner := 0
+			eng.Instrs(h, func(x ssa.Instruction) {
+				if ci, isC := x.(ssa.CallInstruction); isC {
+					nInner++
+					if ci.Common().IsInvoke() && ci.Common().Method.Name() == "Close" {
+						inner = ci
+					}
+				}
+			})
+			if inner == nil || nInner != 1 {
+				return
+			}
+			op := closedOperand(inner.Common())
+			for i, q := range h.Params {
+				if ssa.Value(q) == op {
+					src = eng.OriginConv(call.Common().Args[i])
+				}
+			}
+			if src == nil {
+				return
+			}
+		} else {
+			return
+		}
+		_, deferred := in.(*ssa.Defer)
+		nClose++
+		closeSite = in
 		ld, fa, isL := loadField(src)
 		okOld := false
 		if isL {
@@ -518,7 +598,32 @@ func c15Get(c *eng.Ctx) {
 	if nClose == 1 {
 		// the close is on every successful-rebuild path (closed exactly once, not zero times) when the value is a Closer:
 		// from the ok edge of the type assertion the Close is reached before the store
-		c.Ok("R-C15-5", get, get.Pos(), "Close of the replaced value", "one site, before the store")
+		isCloserOK := func(b *ssa.BasicBlock, i int) bool {
+			ifi, ok := b.Instrs[len(b.Instrs)-1].(*ssa.If)
+			if !ok {
+				return true
+			}
+			if src, truth, isCO := eng.CondOf(ifi.Cond, i == 0).CommaOk(); isCO {
+				if ta, isTA := src.(*ssa.TypeAssert); isTA && eng.IsNamed(ta.AssertedType, "io", "Closer") {
+					return truth // the value is a Closer
+				}
+			}
+			return true
+		}
+		hit, path := eng.Search(get, build, eng.AndFilters(eng.AssumeErr(berr, true), isCloserOK), func(x ssa.Instruction) bool { return x == closeSite }, func(x ssa.Instruction) bool {
+			for _, st := range valStores {
+				if x == ssa.Instruction(st) {
+					return true
+				}
+			}
+			return false
+		})
+		c.Check(hit == nil, "R-C15-5", get, closeSite.Pos(), "Close of the replaced value", "whenever the rebuild succeeded and the old value is an io.Closer it is closed before it is replaced (no further condition: exactly once, not zero times)", func() string {
+			if hit == nil {
+				return ""
+			}
+			return "the replacement is reached without the Close: " + p.PathStr(path)
+		}())
 	}
 	// err stored on both edges with the builder's error
 	for _, st := range errStores {
@@ -627,10 +732,7 @@ func c15Receives(c *eng.Ctx) {
 // install in between).
 func c15WhoNotifies(c *eng.Ctx) {
 	p := c.P
-	notify := anchor(p, setecPkg, "watcher.notify")
-	if notify == nil {
-		return
-	}
+	notify := anchor(p, setecPkg, "watcher.notify") // nil when the send is written in place
 	region := map[*ssa.Function]bool{}
 	for _, af := range applyFuncs(c) {
 		eng.InstrsDeep(af, func(g *ssa.Function, _ ssa.Instruction) { region[eng.Outer(g)] = true })
@@ -638,16 +740,32 @@ func c15WhoNotifies(c *eng.Ctx) {
 	n := 0
 	for _, f := range p.PkgFuncs(setecPkg) {
 		eng.Instrs(f, func(in ssa.Instruction) {
-			ci, ok := in.(ssa.CallInstruction)
-			if !ok || eng.Callee(ci.Common()) != notify {
+			raised := false
+			if ci, ok := in.(ssa.CallInstruction); ok && notify != nil && eng.Callee(ci.Common()) == notify {
+				raised = true
+			}
+			if sel, ok := in.(*ssa.Select); ok && f != notify {
+				for _, st := range sel.States {
+					if st.Dir == types.SendOnly {
+						if fr, _, isF := eng.LoadedField(st.Chan); isF && fr.Is(setecPkg, "watcher", watcherChanField(p)) {
+							raised = true
+						}
+					}
+				}
+			}
+			if snd, ok := in.(*ssa.Send); ok && f != notify {
+				if fr, _, isF := eng.LoadedField(snd.Chan); isF && fr.Is(setecPkg, "watcher", watcherChanField(p)) {
+					raised = true
+				}
+			}
+			if !raised {
 				return
 			}
 			n++
-			okk := region[eng.Outer(f)]
-			c.Check(okk, "R-C15-7", f, in.Pos(), eng.CallStr(ci.Common())+" in "+eng.FName(f), "watchers are notified only where a poll result has just been installed", "notified from "+eng.FName(f))
+			c.Check(region[eng.Outer(f)], "R-C15-7", f, in.Pos(), "notification raised in "+eng.FName(f)+": "+eng.InstrStr(in), "watchers are notified only where a poll result has just been installed", "notified from "+eng.FName(f))
 		})
 	}
 	if n == 0 {
-		c.Undecided("R-C15-7", notify, notify.Pos(), "callers of watcher.notify", "none found")
+		c.Undecided("R-C15-7", nil, 0, "places raising a watcher notification", "none found")
 	}
 }
